@@ -239,3 +239,12 @@ package snap
 //@     invariant !isNil(vertices)
 //@     invariant forall(k A2_Int, seen_it[k] && inSlice(hitMultiple[k], ringIdx) ==> hasKey(vertices, arr(real(k[0]) / 10000000000, real(k[1]) / 10000000000)), trigger(seen_it[k]))
 //@   ensures[C05] forall(k A2_Int, hasKey(hitMultiple, k) && inSlice(hitMultiple[k], ringIdx) ==> hasKey(result, arr(real(k[0]) / 10000000000, real(k[1]) / 10000000000)), trigger(hasKey(hitMultiple, k)))
+
+// C06: ringContains reads the first and the last vertex of the ring: it panics (index out of range) exactly for an empty
+// ring; otherwise it is safe and terminates.
+//@ func ringContains
+//@   indexpanics
+//@   panics[C06] len(ring) == 0
+//@   loop i
+//@     invariant 0 <= i && len(ring) >= 1
+//@     decreases len(ring) - i
